@@ -1347,13 +1347,18 @@ class PrintScenario:
             code = model.get('code', '')
             comment = ('# sourceMappingURL=' + model.get('tail', '')) if res['has_comment'] else None
             smap = model.get('source_map', '')
-            nat = replay().print_js(code, smap, comment, {'methods': None, 'comments': res['comments'], 'chain': False})
             pre, post = model.get('pre', ''), model.get('post', '')
             import base64
-            exp_code = (pre + opener + closer + post) if removing else code
-            exp = exp_code + (('\n//# sourceMappingURL=data:application/json;base64,' + base64.b64encode(smap.encode('utf8')).decode('ascii')) if smap else '')
-            exp_alt = (pre + post + exp[len(exp_code):]) if removing else exp
-            agree = nat.get('ok') and nat.get('content') != exp and nat.get('content') != exp_alt
+            # the encoder is an uninterpreted function in the query: the solver's map text need not be one on which two
+            # encodings actually differ, so the confirmation also tries map texts that exercise the last two alphabet symbols
+            for smap_try in ([smap] + (['a~b', '~~~', '???', '>>>'] if smap else [])):
+                nat = replay().print_js(code, smap_try, comment, {'methods': None, 'comments': res['comments'], 'chain': False})
+                exp_code = (pre + opener + closer + post) if removing else code
+                exp = exp_code + (('\n//# sourceMappingURL=data:application/json;base64,' + base64.b64encode(smap_try.encode('utf8')).decode('ascii')) if smap_try else '')
+                exp_alt = (pre + post + exp[len(exp_code):]) if removing else exp
+                agree = nat.get('ok') and nat.get('content') != exp and nat.get('content') != exp_alt
+                if agree:
+                    break
             info['violations'].append({'prop': 'C10', 'role': role, 'detail': 'code=%r comment=%r -> %r, expected %r' % (code, comment, nat.get('content'), exp),
                                        'witness': {'input': code, 'config': desc, 'agree': bool(agree), 'native_output': nat.get('content'), 'predicted_output': exp, 'native': {'ok': nat.get('ok')}, 'note': 'query decided by cvc5 (str.replace_all)'}})
         return info
